@@ -361,6 +361,13 @@ class Front:
             return r
         if e.is_Pow:
             b, ex = e.args
+            if isinstance(b, sympy.Abs) and ex.is_Integer and int(ex) > 0 and int(ex) % 2 == 0:
+                x = self.t(b.args[0])
+                sq = A.mul(x, A.conj(x))  # |x|^2, exact
+                r = A.one
+                for _ in range(int(ex) // 2):
+                    r = A.mul(r, sq)
+                return r
             if ex.is_Integer and int(ex) >= 0:
                 bb = self.t(b)
                 r = A.one
